@@ -1,0 +1,16 @@
+//go:build verif
+
+// Contracts for package xstar (comment-only; read by /verif/govc).
+
+package xstar
+
+//@ struct pipe
+//@   immutable: p s closeq sendq
+//@
+//@ struct socket
+//@   lock Mutex level 20
+//@   guarded_by Mutex: closed pipes recvQLen sendQLen recvExpire recvq ttl
+//@   immutable: closeq
+//@
+//@ func (*socket).RemovePipe
+//@   assumes cast("*pipe", pp.GetPrivate()).s == s
